@@ -19,6 +19,7 @@ type dbGen struct {
 	base    time.Time
 	noStore bool
 	noNot   bool
+	noShift bool
 }
 
 type dbGenField struct {
@@ -250,7 +251,11 @@ func (g *dbGen) write() simrt.Op {
 				if g.noStore || f.typ != "set" {
 					continue
 				}
-				return simrt.Op{K: "store", S: []string{g.index, f.name, g.expr(2).json()}, I: []int64{g.row(), g.node()}}
+				ns := g.noShift
+				g.noShift = true
+				e := g.expr(2)
+				g.noShift = ns
+				return simrt.Op{K: "store", S: []string{g.index, f.name, e.json()}, I: []int64{g.row(), g.node()}}
 			}
 		}
 	}
@@ -292,6 +297,9 @@ func (g *dbGen) leaf() *expr {
 			if r.Bool(0.3) {
 				// predicates at and beyond the declared bounds
 				v = simrt.Pick(r, f.min-1, f.min, f.max, f.max+1, f.min-1000, f.max+1000)
+			} else if r.Bool(0.25) {
+				// around zero and around powers of two (bit-depth edges)
+				v = simrt.Pick(r, int64(-2), -1, 0, 1, 2, 3, 4, 7, 8, -7, -8, 15, 16, 31, 32, 63, 64, -63, -64)
 			}
 			e := &expr{K: "rowi", F: f.name, Op: op, V: v}
 			if op == "><" {
@@ -348,6 +356,9 @@ func (g *dbGen) expr(depth int) *expr {
 		}
 		return &expr{K: "not", C: []*expr{g.expr(depth - 1)}}
 	default:
+		if g.noShift {
+			return g.expr(depth - 1)
+		}
 		return &expr{K: "shift", N: int64(simrt.Pick(r, 1, 1, 2, 3)), C: []*expr{g.expr(depth - 1)}}
 	}
 }
